@@ -4,6 +4,7 @@ import TF.Proofs.MmrForest
 import TF.Proofs.MmrBounded
 import TF.Proofs.MmrAuthPathIdx
 import TF.Proofs.MmrForestTable
+import TF.Proofs.GenBridgeMmr
 /-!
 # C16 — MMR index arithmetic matches the explicit forest of perfect trees
 
@@ -477,5 +478,116 @@ set_option maxRecDepth 100000 in
 theorem all_functions_agree_with_forest_pow2_bounded_check :
     [63, 64, 65, 127, 128, 129, 255, 256, 257].all forestAgrees = true := by
   decide +kernel
+
+end TF.C16
+
+/-! ## regenerated-from-source bridge
+
+The loop functions of `shared_advanced.rs` are **also regenerated from the Rust text on every run**
+(`TF/Gen/MmrLoops.lean`, namespace `TF.Gen.Loops`, written by `tools/rs2lean_loops.py`: every `while`/`loop` is a
+fuel-indexed structural recursion, `none` = out of fuel; every `for` a recursion on the remaining iterations).
+The theorems below (proofs in `TF/Proofs/GenBridgeMmr.lean`) say that the regenerated definitions are equal to the
+hand-written models of `TF/Model/MmrIndex.lean` pointwise on the whole documented domain, so every theorem above (and
+in C05/C11/C12) about a hand model is a theorem about the code as it is now; the `…_transfer` corollaries spell that
+out and show in particular that the fuel picked by the translator (65 rounds, 66 for the authentication path) is
+enough.  A change of the Rust text changes `TF.Gen.Loops.*`; these theorems are then re-checked or break. -/
+namespace TF.C16
+open TF TF.Gen TF.Mmr TF.Spec.Mmr TF.Model.Mmr
+open TF.MmrE (nodeIdx anc sibsUp)
+
+/-- regenerated `right_lineage_length_and_own_height` = hand model, every input (`none` included) -/
+theorem gen_right_lineage_length_and_own_height_eq_model (n : Nat) :
+    Loops.right_lineage_length_and_own_height n = right_lineage_length_and_own_height n :=
+  TF.GenBridge.gen_rll_own_eq n
+example : Loops.right_lineage_length_and_own_height 13 = some (2, 1) := by decide +kernel
+
+/-- regenerated `right_lineage_length_from_node_index` (recursive in Rust) = hand model, every `u64` -/
+theorem gen_right_lineage_length_from_node_index_eq_model (n : Nat) (h : n < 2^64) :
+    Loops.right_lineage_length_from_node_index n = right_lineage_length_from_node_index n :=
+  TF.GenBridge.gen_rll_node_eq n h
+example : (12 : Nat) < 2^64 ∧ Loops.right_lineage_length_from_node_index 12 = some 3 := by decide +kernel
+
+/-- regenerated `parent` = hand model, every input -/
+theorem gen_parent_eq_model (n : Nat) : Loops.parent n = parent n := TF.GenBridge.gen_parent_eq n
+example : Loops.parent 5 = some 6 ∧ Loops.parent 4 = some 6 := by decide +kernel
+
+/-- regenerated `node_index_to_leaf_index` = hand model, every `u64` -/
+theorem gen_node_index_to_leaf_index_eq_model (n : Nat) (h : n < 2^64) :
+    Loops.node_index_to_leaf_index n = node_index_to_leaf_index n := TF.GenBridge.gen_n2l_eq n h
+example : (8 : Nat) < 2^64 ∧ Loops.node_index_to_leaf_index 8 = some (some 4) ∧
+    Loops.node_index_to_leaf_index 7 = some none := by decide +kernel
+
+/-- regenerated `get_peak_heights` (a `for` loop) = hand model, every `u64` -/
+theorem gen_get_peak_heights_eq_model (n : Nat) (h : n < 2^64) :
+    Loops.get_peak_heights n = get_peak_heights n := TF.GenBridge.gen_peak_heights_eq n h
+example : (11 : Nat) < 2^64 ∧ Loops.get_peak_heights 11 = [3, 1, 0] := by decide +kernel
+
+/-- the regenerated `get_peak_heights_ok` (no shift amount out of range in the `for` loop: debug build = release build)
+    holds for every `u64` -/
+theorem gen_get_peak_heights_ok (n : Nat) (h : n < 2^64) : Loops.get_peak_heights_ok n = true :=
+  TF.GenBridge.gen_peak_heights_ok n h
+example : (18446744073709551615 : Nat) < 2^64 := by decide
+
+/-- regenerated `get_peak_heights_and_peak_node_indices` (two nested `while` loops with `continue 'outer`) = hand
+    model, every leaf count below `2^63` -/
+theorem gen_get_peak_heights_and_peak_node_indices_eq_model (n : Nat) (h : n < 2^63) :
+    Loops.get_peak_heights_and_peak_node_indices n = get_peak_heights_and_peak_node_indices n :=
+  TF.GenBridge.gen_peaks_eq n h
+example : (11 : Nat) < 2^63 ∧ Loops.get_peak_heights_and_peak_node_indices 11 = some ([3, 1, 0], [15, 18, 19]) := by
+  decide +kernel
+
+/-- regenerated `node_indices_added_by_append` = hand model, every input -/
+theorem gen_node_indices_added_by_append_eq_model (c : Nat) :
+    Loops.node_indices_added_by_append c = node_indices_added_by_append c := TF.GenBridge.gen_added_eq c
+example : Loops.node_indices_added_by_append 7 = some [12, 13, 14, 15] := by decide +kernel
+
+/-- regenerated `get_authentication_path_node_indices` = hand model, every input (`none` included) -/
+theorem gen_get_authentication_path_node_indices_eq_model (s p c : Nat) :
+    Loops.get_authentication_path_node_indices s p c = get_authentication_path_node_indices s p c :=
+  TF.GenBridge.gen_auth_path_eq s p c
+example : Loops.get_authentication_path_node_indices 1 7 7 = some (some [2, 6]) ∧
+    Loops.get_authentication_path_node_indices 1 6 7 = some none := by decide +kernel
+
+/-- **transfer**: the theorems about the node-level hand models hold verbatim for the regenerated code — for every
+    node of `tree 0 0 63` (node indices `1 … 2^64 − 1`) the regenerated loops terminate within their fuel and return
+    the right-lineage length, height, parent and leaf index recorded in the table -/
+theorem gen_node_functions_transfer (r : Row) (hr : r ∈ (tree 0 0 63).rootRows) :
+    Loops.right_lineage_length_and_own_height r.idx = some (r.rll, r.height) ∧
+    Loops.right_lineage_length_from_node_index r.idx = some r.rll ∧
+    Loops.node_index_to_leaf_index r.idx = some r.leaf ∧
+    (r.parent ≠ 0 → Loops.parent r.idx = some r.parent) := by
+  have hrange := rows_idx_range _ _ _ _ _ _ _ _ _ _ hr
+  have h64 : (2:Nat)^64 = 18446744073709551616 := by decide
+  have h2 : r.idx < 2^64 := by omega
+  rw [gen_right_lineage_length_and_own_height_eq_model, gen_right_lineage_length_from_node_index_eq_model _ h2,
+    gen_node_index_to_leaf_index_eq_model _ h2, gen_parent_eq_model]
+  exact ⟨right_lineage_length_and_own_height_exact r hr, right_lineage_length_from_node_index_exact.1 r hr,
+    node_index_to_leaf_index_exact r hr, parent_exact r hr⟩
+example : ∃ r ∈ (tree 0 0 63).rootRows, r.idx = 18446744073709551614 :=
+  every_node_index_has_a_row _ (by decide) (by decide)
+
+/-- **transfer**: for every leaf count below `2^63` the regenerated forest-level functions return the peaks of the
+    explicit forest S0 and the node indices it gains by one append -/
+theorem gen_forest_functions_transfer (n : Nat) (hn : n < 2^63) :
+    Loops.get_peak_heights n = (forest n).peaks.map TF.Spec.Mmr.Tree.height ∧
+    Loops.get_peak_heights_and_peak_node_indices n
+      = some ((forest n).peaks.map TF.Spec.Mmr.Tree.height, (forest n).peaks.map TF.Spec.Mmr.Tree.idx) ∧
+    Loops.node_indices_added_by_append n
+      = some ((List.range (trailingOnes n + 1)).map fun k => 2 * n - popCount n + 1 + k) := by
+  rw [gen_get_peak_heights_eq_model n (by omega), gen_get_peak_heights_and_peak_node_indices_eq_model n hn,
+    gen_node_indices_added_by_append_eq_model]
+  exact ⟨(forest_shape_exact n hn).2.2.symm, get_peak_heights_and_peak_node_indices_exact n hn,
+    (node_indices_added_by_append_exact n hn).2⟩
+example : (9223372036854775807 : Nat) < 2^63 := by decide
+
+/-- **transfer** for the authentication-path walk: the regenerated `get_authentication_path_node_indices` terminates
+    within its fuel and returns the sibling node indices bottom-up, for every start node `(l, j)` and ancestor `d` levels
+    up whose path nodes below it are `≤ node_count` (`get_authentication_path_node_indices_of_ancestor`, which also
+    establishes that the 66 rounds of fuel suffice: the result is never the out-of-fuel `none`) -/
+theorem gen_auth_path_transfer (l j d nc : Nat) (hlt : anc l j d < 2^64) (hbelow : ∀ t, t < d → anc l j t ≤ nc) :
+    Loops.get_authentication_path_node_indices (nodeIdx l j) (anc l j d) nc = some (some (sibsUp l j d)) := by
+  rw [gen_get_authentication_path_node_indices_eq_model]
+  exact get_authentication_path_node_indices_of_ancestor l j d nc hlt hbelow
+example : Loops.get_authentication_path_node_indices 8 15 19 = some (some [9, 13, 7]) := by decide +kernel
 
 end TF.C16
